@@ -60,6 +60,9 @@ ASSUMPTIONS = [
     "a default-registered factory on Component reads the component's own attributes only (Component.Changed is not "
     "posted for base-glyph edits; the built-in bounds factories are keyed on Component.BaseGlyphDataChanged instead)",
     "the five proposed fixes repo_fixes/C03-*.diff are applied to the tree under test (the model is of the fixed code)",
+    "cache_coherent assumes every reached state is in the structural domain Dom (chains shorter than the fuel, unique ids "
+    "and names, base-glyph registrations in place); Dom is not proved to be preserved - the driver evaluates it "
+    "(domCheck) after every operation of every generated history and the adaptor expects `true`",
 ]
 TRUSTED = [
     "harness/repr_extract.py (AST extraction of representationFactories / posted notifications / addObserver calls; "
